@@ -82,6 +82,40 @@ CHECKS = {
              "iteration-limit message and ZeroDivisionError; implementation monitor incl. the proportional-share clause.",
         design="5/C18", tech="Coq proof (induction over arcs and over the bounded redistribution loop, contract-parametric) over a hand-written model + exact-rational correspondence",
         note=NOTE + "The model visits arcs in creation order (see trusted base in the evidence); of_type given as a bare string (substring test in the single-arc path) is not modelled."),
+    "C01": dict(
+        text="PARTIAL proof: theorems for the building blocks of a node (a junction's out-arc records add up to what it "
+             "accepted and its in-arc records to what it hands on, for any fan-out and far ends meeting the reply contract; "
+             "stores: entered + returned = offered, left = reported; plain arcs: out-record = in-record). The whole-model "
+             "statement (every node class, every topology and history) is NOT yet a theorem: it is checked by an exact-"
+             "arithmetic monitor on random well-formed models (declared in - out = directly measured storage change + decay, "
+             "residual tolerance only for sub-FLOAT_ACCURACY dust).",
+        design="5/C01", tech="Coq proof for junction/store/arc building blocks + exact-arithmetic whole-model balance monitor (partial)",
+        note=NOTE + "Node classes beyond junction/store/arc are modelled only by the implementation monitor at this stage."),
+    "C03": dict(
+        text="PARTIAL proof: close-out theorems for every store and arc model (close-out changes the physical contents only by "
+             "the decay it applies, records exactly that, re-bases the lagged copy to the contents before decay; queue tanks and "
+             "queue arcs keep what is in transit). The summation over a whole model is checked by an exact-arithmetic stock "
+             "monitor (object-graph walk over all Tank instances, queue contents and WWTW liquor; within a timestep stock "
+             "changes only by declared boundary terms and decay; across close-out only by recorded decay).",
+        design="5/C03", tech="Coq proof of the close-out lemmas + exact-arithmetic whole-model stock monitor (partial)",
+        note=NOTE),
+    "C12": dict(
+        text="PARTIAL proof: in the models every unguarded division of the source is an explicit error value and the "
+             "correspondence demands that the implementation raises exactly there; proved: push_distributed never divides "
+             "by zero when all preferences are positive; store operations have no error case. Whole-model totality is "
+             "checked by a boundary-stream monitor (all-zero / dry-start / bursty forcing, zero demand, empty and full "
+             "stores; exact run: any exception; float run: non-finite scan). Three genuine defects found this way were "
+             "repaired with fix: commits (see known_findings.json).",
+        design="5/C12", tech="Coq proof of division-site lemmas + boundary-stream whole-model monitor (partial)",
+        note=NOTE + "GrowingSurface / nutrient pools are not in the boundary stream yet."),
+    "C20": dict(
+        text="PARTIAL proof: erasure theorems - two stores / fluxes / arcs that agree in volume and differ arbitrarily in "
+             "pollutant lists, masses and qualities give equal volumes under every store operation, close-out and every "
+             "push/pull over a plain arc between volume-determined ends (tank-backed ends are). Whole models: paired exact "
+             "runs of the same hydraulic set-up under different pollutant lists, orders, concentrations, loads and treatment "
+             "parameters must give identical volumes for every arc and store at every timestep.",
+        design="5/C20", tech="Coq proof (relational erasure lemmas) + paired exact whole-model runs (partial)",
+        note=NOTE),
 }
 
 ALL = [f"C{n:02d}" for n in range(1, 21)]
